@@ -561,7 +561,12 @@ if __name__ == "__main__":
              "patterns x resolutions x offsets. distinct = distinct canonical input dump; non-trivial = the call "
              "succeeded and changed something (a foreign slice, more cells out than in, a non-empty result, more than "
              "one output bucket)",
-        assumptions=["theorem hypotheses: value dicts have distinct keys (Python dicts); policyYear_conserves needs the "
+        assumptions=["bridge theorems (Bool predicate true on the model's output): currency_spec_bridge needs cells that do "
+                     "not collide after conversion (distinct class/coordinates/metadata-up-to-currency); disagg_spec_bridge "
+                     "needs Spec.C18.disaggWF (per slice: resolution L a multiple of res, L-month periods starting on the "
+                     "first of a month from 1970 on, no repeated cell, disjoint periods at equal evaluation dates) - "
+                     "evaluated by the driver on every applicable case (histogram key disagg/wf...)",
+                     "theorem hypotheses: value dicts have distinct keys (Python dicts); policyYear_conserves needs the "
                      "share-table contract (Spec.C18.policyCovered: every accident period's normalised row sums to 1, "
                      "evaluated by the driver on every case) and one shape per field within a slice (UniformShapes)",
                      "NaN-free values; scalars and 1-d arrays (rank >= 2 arrays and empty arrays are outside the model)",
